@@ -421,6 +421,23 @@ fn run_headers_and_metadata(rep: &Arc<Report>) {
                         if check_component(rep, &mut local, "ctor:frame_header", &h, &cj, *n, true).is_some() {
                             local.nontrivial.insert(crate::universe::fnv(&format!("{bs}/{bps}/{rate}/{ch}/{variable}/{n}")));
                         }
+                        // the public setter switches between frame-number and sample-number mode (the encoder
+                        // itself does so once per frame): the count must follow the active mode
+                        for small in [3u64, 200] {
+                            let mut h2 = h.clone();
+                            let r = panicx::catch(std::panic::AssertUnwindSafe(|| {
+                                h2.set_frame_offset(if *variable { FrameOffset::Frame(small as u32) } else { FrameOffset::StartSample(small) });
+                            }));
+                            if r.is_ok() {
+                                let cj2 = || json!({"frame_header_new_then_set_offset": {"bs": bs, "bps": bps, "rate": rate, "ch": ch, "variable": variable, "n": n, "then": small}});
+                                check_component(rep, &mut local, "setter:frame_header", &h2, &cj2, *n, true);
+                                // and back
+                                let mut h3 = h2.clone();
+                                if panicx::catch(std::panic::AssertUnwindSafe(|| h3.set_frame_offset(off))).is_ok() && (*variable && *n < (1 << 36) || !*variable && *n < (1 << 31)) {
+                                    check_component(rep, &mut local, "setter:frame_header", &h3, &cj2, *n, true);
+                                }
+                            }
+                        }
                     }
                     _ => local.outcome("frame_header_new:rejected_or_panicked"),
                 }
